@@ -330,7 +330,8 @@ def match_known(known, prop, clause, signature):
 
 
 def write_evidence(prop, tier, seed, level, coverage, wall_s, violations, assumptions, extra=None):
-    os.makedirs(os.path.join(VERIF, "evidence"), exist_ok=True)
+    evdir = os.environ.get("VERIF_EVIDENCE_DIR") or os.path.join(VERIF, "evidence")
+    os.makedirs(evdir, exist_ok=True)
     doc = {
         "property_id": prop,
         "tier": tier,
@@ -343,7 +344,7 @@ def write_evidence(prop, tier, seed, level, coverage, wall_s, violations, assump
     }
     if extra:
         doc.update(extra)
-    path = os.path.join(VERIF, "evidence", prop + ".json")
+    path = os.path.join(evdir, prop + ".json")
     tmp = path + ".tmp"
     with open(tmp, "w") as fh:
         json.dump(doc, fh, indent=1, sort_keys=True, default=_default)
